@@ -120,3 +120,27 @@ Theorem C08_source_walk_visit : forall cb_ok e c n,
           else ([("RUnlock", []); ("callback", [copy_of "TraitEntryOf[V]" e c])], n, VisitStop n)).
 Proof. exact tie_walk_visit_sharded. Qed.
 Print Assumptions C08_source_walk_visit.
+
+(* ---- the defect K1 (D17) and its repair, inside the development ---- *)
+From Cache Require Import Check SyncMapK1.
+
+(* SyncMap's cleanup takes two steps per entry (judge the loaded expiry; CompareAndDelete that entry).  With ExpireAll
+   re-stamping the entry IN PLACE (the code before the fix) the fine-grained slot model produces a history with no
+   linearization under the sequential slot specification: C08 was false of SyncMap's cleanup racing ExpireAll.  The
+   harness had reproduced this history on the real code. *)
+Theorem C08_K1_in_place_refuted :
+  In k1_witness (scheds2 InPlace) /\
+  map o_res (history_of k1_witness) = [XUnit; XUnit; XExpired 5 k1_now; XUnit; XNotFound] /\
+  forall l, l ≡ₚ history_of k1_witness -> c08_realtime l = true -> c08_legal [None] l = false.
+Proof. split; [exact (proj2 k1_witness_history)|split; [exact (proj1 k1_witness_history)|exact (proj2 k1_in_place_refuted)]]. Qed.
+Print Assumptions C08_K1_in_place_refuted.
+
+(* With ExpireAll REPLACING the entry by CompareAndSwap (syncMap.expireEntry, the code now: C07_source_sync_expire_entry),
+   every interleaving of a cleanup cycle with {ExpireAll; Read} — and with a Write racing both — on a long-expired
+   entry has a linearization (10 resp. 60 interleavings, each history searched over all orders that respect real time) *)
+Theorem C08_K1_swap_linearizable :
+  forallb (fun sched => linearizable (history_of sched)) (scheds2 Swap) = true /\
+  forallb (fun sched => linearizable (history_of sched)) (scheds3 Swap) = true /\
+  (List.length (scheds2 Swap) = 10 /\ List.length (scheds3 Swap) = 60)%nat.
+Proof. exact k1_swap_linearizable. Qed.
+Print Assumptions C08_K1_swap_linearizable.
